@@ -466,7 +466,7 @@ def fam_reject(rng, pid):
     return p
 
 
-RAW_KINDS = ['undecodable', 'badstatus', 'foreign', 'closed']
+RAW_KINDS = ['undecodable', 'badstatus', 'foreign', 'closed', 'trailing']
 
 
 def fam_adapter(rng, pid):
